@@ -841,7 +841,13 @@ func (r *FnRun) execLookup(st *State, x *ssa.Lookup) *V {
 	}
 	has := sAnd(sNot(sEq(h.ref, "0")), st.mapHas(h, k))
 	ev := &EvalCtx{run: r, st: st}
-	v := st.nameV("lookup", ev.iteV(has, st.mapGet(h, k), st.zero(h.vt)))
+	_ = ev
+	st.mapZeroAxiom(h)
+	v := st.nameV("lookup", st.mapGet(h, k))
+	if sEq(h.ref, "0") != "false" {
+		// a nil map reads as empty: its rows are never written, and the axiom above needs dom = false there
+		st.assume(sImp(sEq(h.ref, "0"), sNot(st.mapHas(h, k))))
+	}
 	has = st.nameV("has", vBool(has)).S
 	if v.K == KInt && isRefType(h.vt) {
 		st.assume("(< " + v.S + " " + st.ghost["alloc"] + ")")
@@ -878,6 +884,15 @@ func (s *State) mapDel(h *mapHandle, k string) {
 	card := s.comp(h.fam+"#card", 1, "Int")
 	s.writeLeaf(h.fam+"#card", []string{h.ref}, "Int", sIte(has, "(- "+sSel(card, h.ref)+" 1)", sSel(card, h.ref)))
 	s.writeLeaf(h.fam+"#dom", []string{h.ref, k}, "Bool", "false")
+	if h.sync {
+		s.writeLeaf(h.fam+"#val", []string{h.ref, k}, "Int", "0")
+		s.writeLeaf(h.fam+"#vtag", []string{h.ref, k}, "Int", "0")
+		return
+	}
+	if st, ok := h.vt.Underlying().(*types.Struct); ok && st.NumFields() == 0 {
+		return
+	}
+	s.writeAt(h.fam+"#val", []string{h.ref, k}, h.vt, s.zero(h.vt))
 }
 
 func (r *FnRun) execMapUpdate(st *State, fr *frame, x *ssa.MapUpdate) {
@@ -1059,6 +1074,13 @@ func (c *Clause) fileOr(fr *frame) string {
 
 // rangeIndexVars binds `rangeindex` to the hidden index cell of the range loop whose head is `head`.
 func (r *FnRun) rangeIndexVars(st *State, head *ssa.BasicBlock) map[string]*V {
+	for _, ins := range head.Instrs {
+		if nx, ok := ins.(*ssa.Next); ok {
+			if it, ok := st.regs[nx.Iter]; ok && it.L2 != nil {
+				return map[string]*V{"$iter": it}
+			}
+		}
+	}
 	for _, ins := range head.Instrs {
 		if s, ok := ins.(*ssa.Store); ok {
 			if a, ok := s.Addr.(*ssa.Alloc); ok && a.Comment == "rangeindex" {
@@ -1482,6 +1504,10 @@ func (s *State) callsAdvance() {
 	s.havocLeaf("ncall")
 	nw := s.comp("ncall", 1, "Int")
 	s.assume("(forall ((k Int)) (! (>= (select " + nw + " k) (select " + old + " k)) :pattern ((select " + nw + " k))))")
+	old2 := s.comp("ncallr", 2, "Int")
+	s.havocLeaf("ncallr")
+	nw2 := s.comp("ncallr", 2, "Int")
+	s.assume("(forall ((k Int) (x Int)) (! (>= (select (select " + nw2 + " k) x) (select (select " + old2 + " k) x)) :pattern ((select (select " + nw2 + " k) x))))")
 }
 
 var evLeaves = []string{"ev.kind", "ev.a0", "ev.a1", "ev.a2", "ev.a3", "ev.a4", "ev.a5", "ev.a6", "ev.a7"}
@@ -1503,6 +1529,9 @@ func (s *State) emit(kind string, args ...string) {
 	if strings.HasPrefix(kind, "call:") || strings.HasPrefix(kind, "callfn:") {
 		id := s.run.eng.strID(kind)
 		s.writeLeaf("ncall", []string{id}, "Int", "(+ "+sSel(s.comp("ncall", 1, "Int"), id)+" 1)")
+		if len(args) > 0 {
+			s.writeLeaf("ncallr", []string{id, args[0]}, "Int", "(+ "+selN(s.comp("ncallr", 2, "Int"), []string{id, args[0]})+" 1)")
+		}
 	}
 }
 
